@@ -366,9 +366,10 @@ func init() {
 	//     returns at once on error.)
 	//   Pack*(name, args...): bytesval(result) = abipack_<sorts>(name, args by value).
 	// The uninterpreted functions are visible to specifications as spec functions of the same names (abidec_..., abipack_...).
-	for _, n := range []string{"UnpackMethod", "UnpackVariable"} {
+	for _, n := range []string{"UnpackMethod", "UnpackVariable", "UnpackVariablePanic"} {
 		nm := "(" + modPath + "/vm/abi.ABIContract)." + n
 		outPtrFns[nm] = 1
+		panicVariant := strings.HasSuffix(n, "Panic") // no error result: a failed decode panics, the path continues only with abiok
 		reg(nm, nil, func(fr *Frame, st *State, a []*Val, cc *ssa.CallCommon, pos token.Pos) (*Val, *State) {
 			mi, ok := cc.Args[1].(*ssa.MakeInterface)
 			var pt *types.Pointer
@@ -397,6 +398,10 @@ func init() {
 			fr.C.addFact(Le(st.Alloc, na))
 			st.Alloc = na
 			fr.C.allocFacts(fv, st.Alloc)
+			if panicVariant {
+				st.R = And(st.R, App("spec!abiok", SBool, a[2].X, bv))
+				return &Val{K: KUnit}, st
+			}
 			e := Fresh("abi.err", SInt)
 			fr.C.addFact(Eq(Eq(e, Num(0)), App("spec!abiok", SBool, a[2].X, bv)))
 			return &Val{K: KIface, T: res0(cc), X: e}, st
@@ -409,7 +414,8 @@ func init() {
 		fr.C.addFact(Eq(Eq(e, Num(0)), App("spec!abiok", SBool, a[1].X, bv)))
 		return &Val{K: KIface, T: res0(cc), X: e}, st
 	})
-	for _, n := range []string{"PackMethod", "PackVariable"} {
+	for _, n := range []string{"PackMethod", "PackVariable", "PackMethodPanic", "PackVariablePanic"} {
+		packPanics := strings.HasSuffix(n, "Panic") // returns the bytes only (a failed encode panics)
 		reg("("+modPath+"/vm/abi.ABIContract)."+n, []string{"S:byte"}, func(fr *Frame, st *State, a []*Val, cc *ssa.CallCommon, pos token.Pos) (*Val, *State) {
 			rt := cc.Signature().Results()
 			ln := Fresh("abi.packed#len", SInt)
@@ -425,6 +431,9 @@ func init() {
 				bv := fr.C.bytesVal(content, Num(0), ln)
 				fr.C.addFact(Eq(bv, App("spec!abipack_"+sig, SInt, append([]*Term{a[1].X}, args...)...)))
 			}
+			if packPanics {
+				return out, st
+			}
 			var facts []*Term
 			ev := freshVal(rt.At(1).Type(), "abi.packerr", &facts)
 			return &Val{K: KTuple, T: rt, Fs: []*Val{out, ev}}, st
@@ -439,6 +448,43 @@ func init() {
 		fr.C.addFact(Implies(r, And(Eq(a[2].Len, Num(64)), Eq(a[0].Len, Num(32)))))
 		return boolVal(r), st
 	})
+	// sort.Sort / sort.Stable(x) where x wraps a slice: the elements of that window are permuted (unspecified order - the Less
+	// method is not interpreted) and the window is recorded as sorted (ghost; `sorted(s)` in specifications asks whether exactly
+	// the window s of its array is the one last sorted). Anything else the methods of x do is ignored (ASSUMED: Len/Less/Swap
+	// touch only the slice).
+	for _, n := range []string{"sort.Sort", "sort.Stable"} {
+		reg(n, nil, func(fr *Frame, st *State, a []*Val, cc *ssa.CallCommon, pos token.Pos) (*Val, *State) {
+			mi, ok := cc.Args[0].(*ssa.MakeInterface)
+			if !ok {
+				st.havocAll()
+				fr.C.reassertConstGlobals(st)
+				return &Val{K: KUnit}, st
+			}
+			sv := fr.val(st, mi.X)
+			sl, isS := under(mi.X.Type()).(*types.Slice)
+			if sv.K != KSlice || !isS {
+				st.havocAll()
+				fr.C.reassertConstGlobals(st)
+				return &Val{K: KUnit}, st
+			}
+			root := "S:" + tstr(sl.Elem())
+			for _, l := range sliceLeaves(sl.Elem()) {
+				key := heapKey(root, l.path)
+				srt := SArr(SInt, SArr(SInt, sortOf(l.t)))
+				arr := st.heapGet(key, srt)
+				nc := Fresh("sorted!content", srt.Elem)
+				q := BoundVar("m", SInt)
+				oldC := Select(arr, sv.X)
+				fr.C.addFact(ForallPat([]*Term{q}, Implies(Or(Lt(q, sv.Off), Le(Add(sv.Off, sv.Len), q)), Eq(Select(nc, q), Select(oldC, q))), Select(nc, q)))
+				st.heapSet(key, Store(arr, sv.X, nc))
+			}
+			so := st.heapGet(root+"#sortedOff", SArr(SInt, SInt))
+			sn := st.heapGet(root+"#sortedLen", SArr(SInt, SInt))
+			st.heapSet(root+"#sortedOff", Store(so, sv.X, sv.Off))
+			st.heapSet(root+"#sortedLen", Store(sn, sv.X, sv.Len))
+			return &Val{K: KUnit}, st
+		})
+	}
 	// strings.Split: at least one element
 	reg("strings.Split", nil, func(fr *Frame, st *State, a []*Val, cc *ssa.CallCommon, pos token.Pos) (*Val, *State) {
 		v := fr.freshResult(cc.Signature(), "strings.Split")
